@@ -283,6 +283,10 @@ def run_check(pid, tier, seed):
         confirmed_unknown += 1
         print("  %s\n  signature=%s" % (msg, sig), flush=True)
         print("VIOLATION property=%s replay=%s" % (pid, path), flush=True)
+    if len(by_sig) > MAX_REPORTED:
+        print("all %d violation signatures of this run:" % len(by_sig))
+        for sig in by_sig:
+            print("   " + sig)
     if confirmed_unknown:
         rc = 1 if rc == 0 else rc
         if rc == 2:
